@@ -302,3 +302,18 @@ Theorem copy_containsWildcards_src_eq :
     SrcFns.copy_containsWildcards c = Some (has_wild c).
 Proof. exact CopyContainsWildcardsEq.copy_containsWildcards_src_eq. Qed.
 Print Assumptions copy_containsWildcards_src_eq.
+
+(* splitWildcards (strings.Split / filepath.Join with the meanings of Src/Prims.v, proved equal to Path.comps /
+   Path.clean; a range variable that shadows the parameter; containsWildcards through its own translation)
+   computes what the model's resolve_wild computes: the components of Clean(p) (one empty component for an
+   empty p; an empty component stands for "/"), split before the first wildcard component by split_wild,
+   each half joined and cleaned ("" for an empty half) — for every p whose components hold no backslash. *)
+From FS Require Proofs.Src.SplitWildcardsEq.
+Theorem splitWildcards_src_eq : forall p,
+  let cs0 := match p with [] => [[]] | _ => comps (clean p) end in
+  let cs := map (fun c => match c with [] => [sep] | _ => c end) cs0 in
+  let jn := fun l : list bytes => match l with [] => [] | _ => clean (joinc l) end in
+  forallb (fun c => negb (existsb (N.eqb ch_bsl) c)) cs0 = true ->
+  SrcFns.splitWildcards p = Some (jn (fst (split_wild cs)), jn (snd (split_wild cs))).
+Proof. exact SplitWildcardsEq.splitWildcards_src_eq. Qed.
+Print Assumptions splitWildcards_src_eq.
